@@ -142,12 +142,12 @@ func (l *verifLoop) Oneway(ctx frugal.FContext, payload []byte) error {
 	return nil
 }
 
-func (l *verifLoop) Open() error                             { return nil }
-func (l *verifLoop) Close() error                            { return nil }
-func (l *verifLoop) IsOpen() bool                            { return true }
-func (l *verifLoop) Closed() <-chan error                    { return nil }
-func (l *verifLoop) SetMonitor(frugal.FTransportMonitor)     {}
-func (l *verifLoop) GetRequestSizeLimit() uint               { return 0 }
+func (l *verifLoop) Open() error                         { return nil }
+func (l *verifLoop) Close() error                        { return nil }
+func (l *verifLoop) IsOpen() bool                        { return true }
+func (l *verifLoop) Closed() <-chan error                { return nil }
+func (l *verifLoop) SetMonitor(frugal.FTransportMonitor) {}
+func (l *verifLoop) GetRequestSizeLimit() uint           { return 0 }
 
 const (
 	verifValue = iota
